@@ -1,6 +1,7 @@
 mod build;
 mod gram;
 mod hook;
+mod lifesim;
 mod norm;
 mod pool;
 mod prng;
@@ -21,6 +22,7 @@ use std::time::{Duration, Instant};
 fn engine_by_name(n: &str) -> Box<dyn Engine> {
     match n {
         "srcsim" => Box::new(srcsim::SrcSim),
+        "lifesim" => Box::new(lifesim::LifeSim),
         _ => {
             eprintln!("unknown engine {}", n);
             std::process::exit(2)
@@ -160,7 +162,11 @@ fn parent(args: &Args) {
                     case: idx,
                     class: if to2 { "hang".into() } else { "crash".into() },
                     summary: format!("worker process died running case {} alone (timed_out={}, status={:?})", idx, to2, st2),
-                    replay: json!({"engine": ename, "property": engine.property(), "seed": seed, "case": idx, "tier": tier, "regenerate": true, "class": if to2 {"hang"} else {"crash"}}),
+                    replay: if ename == "lifesim" {
+                        json!({"engine": ename, "property": engine.property(), "seed": seed, "case": idx, "class": if to2 {"hang"} else {"crash"}, "detail": format!("worker died: {:?}", st2), "spec": lifesim::gen_case(seed, idx, &tier)})
+                    } else {
+                        json!({"engine": ename, "property": engine.property(), "seed": seed, "case": idx, "tier": tier, "regenerate": true, "class": if to2 {"hang"} else {"crash"}})
+                    },
                 });
             } else if let Ok(b) = std::fs::read(&o2) {
                 if let Ok(j) = serde_json::from_slice::<Value>(&b) {
@@ -193,8 +199,7 @@ fn parent(args: &Args) {
         let mut rc = Command::new(&exe);
         rc.arg("replay").arg(&min).stdin(Stdio::null()).stdout(Stdio::null());
         let (rs, rto) = run_with_timeout(&mut rc, 300);
-        let reproduced = rto || rs.map(|s| s.code() != Some(0)).unwrap_or(true);
-        let reproduced = reproduced && rs.map(|s| s.code() != Some(2)).unwrap_or(true);
+        let reproduced = rto || rs.map(|s| s.code() == Some(1) || s.code().is_none()).unwrap_or(true);
         if reproduced {
             confirmed += 1;
             println!("violation: {}", v.summary);
@@ -227,6 +232,10 @@ fn evidence(engine: &dyn Engine, tier: &str, seed: u64, cj: &Value, wall: f64, v
     let cases = cj["cases_run"].as_u64().unwrap_or(0);
     let counters = &cj["counters"];
     let evals = counters["evaluations.replica_runs"].as_u64().unwrap_or(cases).max(1);
+    let simulated = match engine.name() {
+        "lifesim" => "thread stack size (resource limit), lifecycle history, nesting depth; crash containment by process boundary",
+        _ => "Read+Seek device (SimReader), pull iterators (SimIter, SimCloneIter); every decision from the case PRNG / the recorded trace",
+    };
     let child_wall = cj["wall_s"].as_f64().unwrap_or(wall).max(1e-9);
     json!({
         "property_id": engine.property(),
@@ -252,7 +261,7 @@ fn evidence(engine: &dyn Engine, tier: &str, seed: u64, cj: &Value, wall: f64, v
             "maxima": cj["maxima"],
             "real_vs_stub": {
                 "real": "all of chumsky, unmodified, compiled from /repo's working tree (features std, stacker, memoization, extension, pratt, either, bytes, regex, unstable)",
-                "simulated": "Read+Seek device (SimReader), pull iterators (SimIter, SimCloneIter); every decision from the case PRNG / the recorded trace",
+                "simulated": simulated,
                 "stubbed_inside_chumsky": "nothing"
             }
         },
@@ -263,6 +272,7 @@ fn evidence(engine: &dyn Engine, tier: &str, seed: u64, cj: &Value, wall: f64, v
 fn rule_text(engine: &str) -> String {
     match engine {
         "srcsim" => "case = seeded (grammar AST, 1-3 token strings); each string is parsed (parse and check) through every applicable input kind fed by a simulated source whose per-call behaviour (chunk sizes, EINTR, cut points, size_hint) is drawn from the case PRNG; evaluations = replica runs compared with the &[T] reference. distinct_nontrivial = distinct (case digest, kind, policy) where the reference consumed >= 2 tokens AND the replica's source actually saw a backward reposition / short read / EINTR (reader) or served a rewind from its cache / by cloning (iterators)".into(),
+        "lifesim" => "case = seeded (template, recursive()/declare-define form, 0-12 neutral wrappers between two recursion guards, thread stack size 64 KiB..8 MiB, nesting depth: exhaustive 0..64 then log-uniform up to 10^4 / 10^5 / 10^6, input variant well-formed | truncated | wrong token | surplus token, lifecycle history of <= 11 ops: clone, drop (incl. the original handle), boxed, parse, check, define-again); evaluations = cases. distinct_nontrivial = distinct cases with (depth >= 1000 on a stack <= 256 KiB) OR (>= 3 lifecycle ops with a drop or define-again before the final parse)".into(),
         _ => String::new(),
     }
 }
@@ -274,6 +284,14 @@ fn assumptions(engine: &str) -> Vec<String> {
             "only contract-legal source behaviour (any chunking, EINTR, EOF, loose size_hint) carries the equality oracle; hard I/O errors are characterised and can never raise a violation".into(),
             "error descriptions (found/expected/messages) are not part of C10 and are only counted when they differ".into(),
             "empty spans of mapped (token,span) inputs are compared among mapped kinds only".into(),
+            "seeded sampling: a clean run is evidence, not proof".into(),
+        ],
+        "lifesim" => vec![
+            "oracle 1 (openers <= unroll bound): full equality, errors included, with the same grammar unrolled with plain combinators and no Recursive, run on a separate 2 GiB-stack thread".into(),
+            "oracle 2 (deeper): generator-known acceptance and output, used only for templates whose shallow calibration against the unrolling agrees; error content there is not compared".into(),
+            "oracle 3: the worker process survives; a death is attributed through the journal and re-run alone".into(),
+            "oracle 4: a second define() panics with the define-once message naming the caller's file, and later parses are unchanged".into(),
+            "the harness's own frames on the smallest (64 KiB) stack are assumed to fit; selftest 'stackmargin' measures this at 32 KiB".into(),
             "seeded sampling: a clean run is evidence, not proof".into(),
         ],
         _ => vec![],
@@ -320,6 +338,23 @@ fn replay_file(p: &Path, verbose: bool) -> i32 {
                 }
             }
         }
+        "lifesim" => {
+            let spec: lifesim::LifeCase = serde_json::from_value(v["spec"].clone()).unwrap_or_else(|e| harness_error(&format!("bad lifesim replay: {}", e)));
+            match lifesim::replay(&spec) {
+                Some((class, detail)) => {
+                    if verbose {
+                        println!("reproduced property=C12 class={}\n {}", class, detail);
+                    }
+                    1
+                }
+                None => {
+                    if verbose {
+                        println!("not reproduced");
+                    }
+                    0
+                }
+            }
+        }
         _ => harness_error("replay: unknown engine"),
     }
 }
@@ -336,8 +371,56 @@ fn minimise_file(src: &Path, dst: &Path) {
             let m = srcsim::minimise(&rp);
             std::fs::write(dst, serde_json::to_vec_pretty(&m).unwrap()).unwrap();
         }
+        "lifesim" => {
+            // candidates may crash the process: each one runs in a fresh subprocess
+            let exe = std::env::current_exe().unwrap();
+            let class = v["class"].as_str().unwrap_or("").to_string();
+            let mut best: lifesim::LifeCase = serde_json::from_value(v["spec"].clone()).unwrap();
+            let mut doc = v.clone();
+            let tmp = dst.with_extension("cand.json");
+            let mut budget = 120;
+            let still_fails = |c: &lifesim::LifeCase| -> bool {
+                let mut d = doc_for(&v, c);
+                d["class"] = json!(class);
+                std::fs::write(&tmp, serde_json::to_vec(&d).unwrap()).unwrap();
+                let mut cmd = Command::new(&exe);
+                cmd.arg("replay").arg(&tmp).stdin(Stdio::null()).stdout(Stdio::piped());
+                let ch = cmd.spawn().unwrap();
+                let out = ch.wait_with_output().unwrap();
+                let txt = String::from_utf8_lossy(&out.stdout).to_string();
+                if class == "crash" || class == "hang" {
+                    out.status.code().is_none()
+                } else {
+                    out.status.code() == Some(1) && txt.contains(&format!("class={}", class))
+                }
+            };
+            let mut progress = true;
+            while progress && budget > 0 {
+                progress = false;
+                for cand in lifesim::shrink_candidates(&best) {
+                    if budget == 0 {
+                        break;
+                    }
+                    budget -= 1;
+                    if still_fails(&cand) {
+                        best = cand;
+                        progress = true;
+                        break;
+                    }
+                }
+            }
+            doc["spec"] = serde_json::to_value(&best).unwrap();
+            std::fs::remove_file(&tmp).ok();
+            std::fs::write(dst, serde_json::to_vec_pretty(&doc).unwrap()).unwrap();
+        }
         _ => {
             std::fs::copy(src, dst).unwrap();
         }
     }
+}
+
+fn doc_for(orig: &Value, c: &lifesim::LifeCase) -> Value {
+    let mut d = orig.clone();
+    d["spec"] = serde_json::to_value(c).unwrap();
+    d
 }
